@@ -209,6 +209,12 @@ def case_linear(rep):
         compare(run, "PlaneStress~3D(sigma33=0)", "stress", ps.gradient([F2d, None])[0], s3s[:2, :2], sA, 1e-12, "linear:plane-stress")
         cond = A3[:2, :2, :2, :2] - np.einsum("ij,kl->ijkl", A3[:2, :2, 2, 2], A3[2, 2, :2, :2]) / A3[2, 2, 2, 2]
         compare(run, "PlaneStress~3D(sigma33=0)", "elasticity", ps.hessian([F2d, None])[0][..., 0, 0], cond, sA, 1e-12, "linear:plane-stress")
+        # the full (3x3) stress and strain the two plane laws report: the 3D law under the corresponding constraint
+        sym3 = lambda G: 0.5 * (G + G.transpose(1, 0, 2, 3)) - np.eye(3).reshape(3, 3, 1, 1)
+        for lab, law, F3c, unit in (("PlaneStrain~3D(eps33=0)", pe, F3, "linear:plane-strain:full"),
+                                    ("PlaneStress~3D(sigma33=0)", ps, F3s, "linear:plane-stress:full")):
+            compare(run, lab, "stress-3x3", law.stress([F2d, None])[0], le.gradient([F3c, None])[0], sA, 1e-12, unit)
+            compare(run, lab, "strain-3x3", law.strain([F2d, None])[0], sym3(F3c), 1.0, 1e-12, unit)
         # orthotropic linear elasticity vs orthotropic Saint-Venant Kirchhoff at F = I through the provided converter
         Eo, nuo, Go = list(rng.uniform(5, 15, 3)), list(rng.uniform(0.1, 0.3, 3)), list(rng.uniform(1, 4, 3))
         lo = fem.LinearElasticOrthotropic(E=Eo, nu=nuo, G=Go)
@@ -313,7 +319,7 @@ def _required():
             "NeoHookeCompressible~jax.total_lagrange(S):stress",
             "OgdenRoxburgh(NeoHooke)~tt.ogden_roxburgh(neo_hooke):stress", "OgdenRoxburgh(NeoHooke)~tt.ogden_roxburgh(neo_hooke):statevars",
             "linear:definition", "linear:tensor-notation", "linear:material-strain", "linear:plane-strain", "linear:plane-stress",
-            "linear:orthotropic", "linear:orthotropic-iso", "linear:orthotropic:rotated:k=2", "linear:orthotropic:rotated:k=1", "linear:orthotropic:rotated:k=0", "linear:orthotropic:rotated:k=real", "linear:orthotropic:aligned:k=2", "linear:orthotropic:aligned:k=1", "linear:orthotropic:aligned:k=0", "linear:orthotropic:aligned:k=real"]
+            "linear:orthotropic", "linear:orthotropic-iso", "linear:plane-strain:full", "linear:plane-stress:full", "linear:orthotropic:rotated:k=2", "linear:orthotropic:rotated:k=1", "linear:orthotropic:rotated:k=0", "linear:orthotropic:rotated:k=real", "linear:orthotropic:aligned:k=2", "linear:orthotropic:aligned:k=1", "linear:orthotropic:aligned:k=0", "linear:orthotropic:aligned:k=real"]
     reg_mu = ["NeoHooke(mu,bulk)", "NeoHookeCompressible(mu,lmbda)", "LinearElasticLargeStrain(E,nu)", "tt.neo_hooke", "tt.mooney_rivlin", "tt.yeoh",
               "tt.third_order_deformation", "tt.blatz_ko", "tt.van_der_waals", "tt.storakers", "tt.extended_tube[delta=0]", "tt.ogden",
               "tt.arruda_boyce", "tt.alexander", "tt.anssari_benam_bucchi", "tt.lopez_pamies", "tt.saint_venant_kirchhoff", "jax.neo_hooke",
